@@ -19,7 +19,24 @@ pub fn required_counters(prop: &str) -> Vec<&'static str> {
             "C02/bid-fee-tie-leeway",
             "C02/coinciding-parties",
         ],
-        "C03" => vec!["C03/accepted-matches", "C03/refused-ineligible", "no-verdict/match/funds-attached", "no-verdict/match/non-canonical-id"],
+        "C03" => vec![
+            "C03/accepted-matches",
+            "C03/refused-ineligible",
+            "no-verdict/match/funds-attached",
+            "C03/refused-solely-because/sender-not-executor",
+            "C03/refused-solely-because/ask-not-on-book",
+            "C03/refused-solely-because/bid-not-on-book",
+            "C03/refused-solely-because/quote-denominations-differ",
+            "C03/refused-solely-because/ask-pending-approval",
+            "C03/refused-solely-because/ask-price-above-bid-price",
+            "C03/refused-solely-because/price-is-neither-limit",
+            "C03/refused-solely-because/size-below-1",
+            "C03/refused-solely-because/size-above-ask-remainder",
+            "C03/refused-solely-because/size-above-bid-remainder",
+            "C03/refused-solely-because/executed-quote-not-whole",
+            "C03/refused-solely-because/bid-price-quote-not-whole",
+            "C03/refused-solely-because/price-unparsable",
+        ],
         "C04" => vec![
             "C04/reject_ask/ready/explicit-partial",
             "C04/reject_ask/pending/explicit-partial",
@@ -31,7 +48,22 @@ pub fn required_counters(prop: &str) -> Vec<&'static str> {
         ],
         "C05" => vec!["C05/accepted-guarded/cancel_ask", "C05/accepted-guarded/cancel_bid", "C05/accepted-guarded/execute", "C05/accepted-guarded/approve_ask", "C05/accepted-guarded/modify_contract", "refused/modify_contract", "refused/approve_ask"],
         "C06" => vec!["C06/cancel_ask/canonical-id", "C06/expire_bid/canonical-id", "C06/cancel_bid/legacy-id", "C06/expire_ask/legacy-id", "C06/bid-remainder-not-lot-multiple", "C06/ask-remainder-not-lot-multiple"],
-        "C07" => vec!["C07/create_ask/admitted", "C07/create_bid/admitted", "C07/create_ask/refused-ill-formed", "C07/create_bid/refused-ill-formed", "C07/create_ask/pull-in", "C07/create_bid/pull-in", "C09/create-bid-fee-rounds-to-zero"],
+        "C07" => vec![
+            "C07/create_ask/admitted", "C07/create_bid/admitted", "C07/create_ask/pull-in", "C07/create_bid/pull-in", "C09/create-bid-fee-rounds-to-zero",
+            "C07/create_ask/refused-solely-because/id-not-canonical", "C07/create_ask/refused-solely-because/id-already-on-ask-side",
+            "C07/create_ask/refused-solely-because/base-not-traded", "C07/create_ask/refused-solely-because/quote-not-traded",
+            "C07/create_ask/refused-solely-because/size-not-positive-lot-multiple", "C07/create_ask/refused-solely-because/price-not-positive",
+            "C07/create_ask/refused-solely-because/price-beyond-precision", "C07/create_ask/refused-solely-because/price-unparsable",
+            "C07/create_ask/refused-solely-because/funds-not-exactly-the-escrow", "C07/create_ask/refused-solely-because/funds-attached-for-restricted",
+            "C07/create_ask/refused-solely-because/missing-attribute",
+            "C07/create_bid/refused-solely-because/id-not-canonical", "C07/create_bid/refused-solely-because/id-already-on-bid-side",
+            "C07/create_bid/refused-solely-because/base-not-traded", "C07/create_bid/refused-solely-because/quote-not-traded",
+            "C07/create_bid/refused-solely-because/size-not-positive-lot-multiple", "C07/create_bid/refused-solely-because/price-beyond-precision",
+            "C07/create_bid/refused-solely-because/quote-size-not-price-times-size",
+            "C07/create_bid/refused-solely-because/fee-absent-but-due", "C07/create_bid/refused-solely-because/fee-amount-not-the-rate",
+            "C07/create_bid/refused-solely-because/fee-denomination-not-quote", "C07/create_bid/refused-solely-because/funds-not-exactly-the-escrow",
+            "C07/create_bid/refused-solely-because/funds-attached-for-restricted", "C07/create_bid/refused-solely-because/missing-attribute",
+        ],
         "C08" => vec!["C08/approvals-accepted", "C08/ready-states-checked", "C08/pending-ask-reject-attempts", "refused/approve_ask"],
         "C09" => vec!["C09/held-fee-states-checked", "C09/held-fee-exact-tie", "C09/bid-closed-by-match", "C09/bid-closed-by-reversal", "C09/create-bid-fee-nonzero", "C09/create-bid-fee-rounds-to-zero", "C02/ask-fee-whole-proceeds", "C02/bid-fill-fee-zero"],
         "C10" => vec!["C10/bank/base/None", "C10/bank/base/Coin", "C10/transfer/base/Restricted", "C10/transfer/conv/Restricted", "C10/transfer/quote/Restricted", "C10/bank/conv/Coin", "C10/bank/quote/None", "C10/pull-in"],
